@@ -38,6 +38,13 @@ def offRange (so eo : Option Int) : Nat × Nat :=
 def unionHead (types : List Int) (offs : Option (List Int)) (i : Nat) : Option Int × Option (Bool × Option Int) :=
   (types[i]?, offs.map fun o => (decide (types.length = o.length), o[i]?))
 
+/-- which constructor -/
+def kind : Arr → Nat
+  | .null _ => 0 | .boolean _ _ _ => 1 | .prim _ _ _ => 2 | .time _ _ _ _ => 3 | .timestamp _ _ _ _ => 4
+  | .decimal128 _ _ _ _ => 5 | .bytes _ _ _ _ => 6 | .bytesView _ _ _ _ => 7 | .fixedSizeBinary _ _ _ => 8
+  | .struct _ _ _ => 9 | .list _ _ _ _ _ => 10 | .fixedSizeList _ _ _ _ _ => 11 | .map _ _ _ _ _ => 12
+  | .dictionary _ _ => 13 | .union _ _ _ => 14
+
 mutual
 def reachEq : Arr → Arr → Nat → Bool
   | .null len, a', i =>
@@ -104,7 +111,7 @@ def reachEq : Arr → Arr → Nat → Bool
   | .dictionary ks vs, a', i =>
     (match a' with
      | .dictionary ks' vs' =>
-       reachEq ks ks' i &&
+       reachEq ks ks' i && decide (kind vs = kind vs') &&
        (match ks with
         | .prim _ _ vals =>
           (match vals[i]? with
@@ -291,12 +298,12 @@ theorem reachEq_map {v : Option Bits} {offs : List Int} {mm : MapMeta} {ks vs : 
   · cases h
 
 theorem reachEq_dictionary {ks vs : Arr} {a' : Arr} {i : Nat} (h : reachEq (.dictionary ks vs) a' i = true) :
-    ∃ ks' vs', a' = .dictionary ks' vs' ∧ reachEq ks ks' i = true ∧
+    ∃ ks' vs', a' = .dictionary ks' vs' ∧ reachEq ks ks' i = true ∧ kind vs = kind vs' ∧
       ∀ ty kv vals k, ks = .prim ty kv vals → vals[i]? = some k → 0 ≤ k → reachEq vs vs' k.toNat = true := by
   unfold reachEq at h
   split at h
-  · simp only [Bool.and_eq_true] at h
-    refine ⟨_, _, rfl, h.1, ?_⟩
+  · simp only [Bool.and_eq_true, decide_eq_true_eq] at h
+    refine ⟨_, _, rfl, h.1.1, h.1.2, ?_⟩
     intro ty kv vals k hks hk h0
     have h2 := h.2
     subst hks
@@ -320,5 +327,23 @@ theorem reachEq_union {types : List Int} {offs : Option (List Int)} {fs : ArrUFi
     simp only [ht, hoff, h0, h1, and_self, if_true] at h2
     exact h2
   · cases h
+
+theorem reachEq_kind {a a' : Arr} {i : Nat} (h : reachEq a a' i = true) : kind a = kind a' := by
+  cases a with
+  | null len => obtain ⟨_, rfl, _⟩ := reachEq_null h; rfl
+  | boolean len v vals => obtain ⟨_, _, _, rfl, _⟩ := reachEq_boolean h; rfl
+  | prim ty v vals => obtain ⟨_, _, rfl, _⟩ := reachEq_prim h; rfl
+  | time ty u v vals => obtain ⟨_, _, rfl, _⟩ := reachEq_time h; rfl
+  | timestamp u tz v vals => obtain ⟨_, _, rfl, _⟩ := reachEq_timestamp h; rfl
+  | decimal128 p s v vals => obtain ⟨_, _, rfl, _⟩ := reachEq_decimal h; rfl
+  | bytes ty v offs data => obtain ⟨_, _, rfl, _⟩ := reachEq_bytes h; rfl
+  | bytesView ty v views buffers => obtain ⟨_, _, rfl, _⟩ := reachEq_bytesView h; rfl
+  | fixedSizeBinary n v data => obtain ⟨_, rfl, _⟩ := reachEq_fsb h; rfl
+  | struct len v fs => obtain ⟨_, _, _, rfl, _⟩ := reachEq_struct h; rfl
+  | list l v offs fm el => obtain ⟨_, _, _, _, _, rfl, _⟩ := reachEq_list h; rfl
+  | fixedSizeList len v n fm el => obtain ⟨_, _, _, _, rfl, _⟩ := reachEq_fsl h; rfl
+  | map v offs mm ks vs => obtain ⟨_, _, _, _, _, rfl, _⟩ := reachEq_map h; rfl
+  | dictionary ks vs => obtain ⟨_, _, rfl, _⟩ := reachEq_dictionary h; rfl
+  | union types offs fs => obtain ⟨_, _, _, rfl, _⟩ := reachEq_union h; rfl
 
 end SaModel.Props.C17
